@@ -299,8 +299,8 @@ def r3_siblings(ctx):
     te = ctx.prog.func(f'{DOC}.tokens_to_encodings')
     rets = symex.returns(te)
     p = te.params[1]
-    ok = len(rets) == 1 and src(rets[0][1]) in (f'[token.encoding for token in {p} if token.encoding is not None]',
-                                                f'[token.encoding for token in {p}]')
+    ok = len(rets) == 1 and F.same(ctx, te, rets[0][1], f'[token.encoding for token in {p} if token.encoding is not None]',
+                                   f'[token.encoding for token in {p}]')
     ctx.check(ok, 'R3', te.loc, te.qualname, 'tokens-to-encodings', 'tokens_to_encodings maps each token to its encoding, in order')
     hn = ctx.prog.func(f'{DOC}.get_header_nodes')
     rets = symex.returns(hn)
@@ -320,6 +320,16 @@ def r3_siblings(ctx):
         and F.same(ctx, fr, G.substitute(loops[0].iter, env_fr), f'self.get_all_tokens({p})') \
         and any(isinstance(n, ast.Assign) and F.is_name(n.targets[0], D) and src(n.value) in ('{}', 'dict()') for n in walk_local(fr.node))
     why_f = ''
+    # whatever the shape: every listing frequencies takes is taken with the caller's filter
+    for n_ in walk_local(fr.node):
+        if isinstance(n_, ast.Call) and isinstance(n_.func, ast.Attribute) and F.is_name(n_.func.value, 'self') \
+                and n_.func.attr in ('get_all_tokens', 'get_unique_tokens', 'get_all_tokens_encodings', 'get_unique_token_encodings'):
+            args_ = list(n_.args) + [k.value for k in n_.keywords]
+            ctx.check(len(args_) == 1 and F.is_name(args_[0], p), 'R3', f'{fr.module.relpath}:{n_.lineno}', fr.qualname, 'frequencies-filter-forwarded',
+                      f'`{src(n_)[:60]}` lists the tokens with the filter frequencies was given',
+                      f'`{src(n_)[:60]}` does not pass the filter `{p}` on: tokens outside the requested categories are counted')
+    if not okf:
+        raise AnalysisError(f'{fr.loc}: frequencies is not one loop over the listing that fills one table returned at the end: not followed')
     if okf:
         t = loops[0].target.id
         K = f'{t}.encoding'
@@ -403,7 +413,10 @@ def r4_comments(ctx):
         trav = [e for e in sp.events if e.kind == 'expr' and isinstance(e.expr, ast.Call) and src(e.expr.func) == 'self.tree.dfs_iterative'
                 and len(e.expr.args) == 1 and src(e.expr.args[0]) == 'MetacommentsTraversal()']
         q = EM.describe(val, {'MetacommentsTraversal().metacomments'})
-        if len(trav) != 1 or q is None or q.sorts or q.sliced or q.hashed:
+        if q is None or not trav:
+            # the list is assembled in a way the element-wise description does not follow: unknown, not wrong
+            raise AnalysisError(f'{gm.loc}: get_metacomments returns `{src(val)[:80]}`, which is not followed element by element')
+        if len(trav) != 1 or q.sorts or q.sliced or q.hashed:
             ok, why = False, f'returns `{src(val)[:80]}`'
             continue
         a_nokey, a_match = f'{key} is None', f"_e.encoding.startswith(f'!!!{{{key}}}')"
@@ -412,7 +425,10 @@ def r4_comments(ctx):
         elt_atoms = [a for t in ast.walk(q.elt) if isinstance(t, ast.IfExp) for a in G.atoms_of(G._formula(t.test))]
         ats = sorted(set(G.atoms_of(fm)) | set(G.atoms_of(pc)) | set(elt_atoms))
         if not set(ats) <= {a_nokey, a_match, 'clear'}:
-            ok, why = False, f'depends on {sorted(set(ats) - {a_nokey, a_match, "clear"})}'
+            extra_ats = sorted(set(ats) - {a_nokey, a_match, 'clear'})
+            if not any('_e' in a_ for a_ in extra_ats):
+                raise AnalysisError(f'{gm.loc}: get_metacomments also depends on {extra_ats[:2]}: not decided')
+            ok, why = False, f'depends on {extra_ats}'     # a further test on the comment itself
             continue
         for bits in itertools.product([False, True], repeat=len(ats)):
             v = dict(zip(ats, bits))
@@ -439,6 +455,17 @@ def r5_monophony(ctx):
     rets = symex.returns(f)
     if not rets or len(rets) > 16:
         raise AnalysisError(f'{f.loc}: is_monophonic has {len(rets)} return paths')
+    # whatever the shape: the listings it counts are filtered by CHORD and NOTE_REST only (a wider filter counts other material)
+    for n_ in walk_local(f.node):
+        if isinstance(n_, ast.Call) and isinstance(n_.func, ast.Attribute) and n_.func.attr in ('get_all_tokens', 'get_unique_tokens'):
+            args_ = list(n_.args) + [k.value for k in n_.keywords]
+            okl, cats = ctx.ce.try_eval(args_[0], f.module) if len(args_) == 1 else (False, None)
+            names_ = {getattr(c_, 'name', None) for c_ in cats} if okl and isinstance(cats, (list, tuple, set, frozenset)) else None
+            if names_ is None:
+                raise AnalysisError(f'{f.loc}: the filter of `{src(n_)[:60]}` in is_monophonic is not a constant list of categories')
+            ctx.check(names_ <= {'CHORD', 'NOTE_REST'}, 'R5', f'{f.module.relpath}:{n_.lineno}', f.qualname, 'monophony-listing-filter',
+                      f'`{src(n_)[:70]}` counts chords / notes and rests only',
+                      f'`{src(n_)[:70]}` lists {sorted(names_ - {"CHORD", "NOTE_REST"})} too: the count of "notes and rests" includes other tokens')
     # the answer as one formula: on each path the path condition and the returned truth value (early returns, a single
     # conjunction and nested tests are the same function of the three facts)
     fm = ('const', False)
@@ -449,6 +476,8 @@ def r5_monophony(ctx):
     chord = f'nonempty({d}.get_all_tokens(filter_by_categories=[TokenCategory.CHORD]))'
     note = f'nonempty({d}.get_all_tokens(filter_by_categories=[TokenCategory.NOTE_REST]))'
     eq, cex, unknown = G.compare(fm, lambda v: v['k'] and not v['c'] and v['n'], {kern: 'k', chord: 'c', note: 'n'})
+    if unknown:
+        raise AnalysisError(f'{f.loc}: is_monophonic depends on {sorted(unknown)[:2]}: not one of the three facts the rule knows')
     ctx.check(eq and not unknown, 'R5', f.loc, f.qualname, 'monophony-truth-table',
               'is_monophonic = exactly one **kern spine and no CHORD token and at least one NOTE_REST token',
               f'is_monophonic is `{G.show(fm)[:200]}`' + (f'; differs at {cex}' if cex else ''))
